@@ -103,3 +103,22 @@ func bytesOf(v any) []byte {
 	}
 	return out
 }
+
+// readLines returns the non-empty lines of a file.
+func readLines(path string) ([][]byte, error) {
+	f, err := os.Open(path)
+	if err != nil {
+		return nil, err
+	}
+	defer f.Close()
+	var out [][]byte
+	sc := bufio.NewScanner(f)
+	sc.Buffer(make([]byte, 1<<20), 1<<28)
+	for sc.Scan() {
+		if len(sc.Bytes()) == 0 {
+			continue
+		}
+		out = append(out, append([]byte(nil), sc.Bytes()...))
+	}
+	return out, sc.Err()
+}
